@@ -85,6 +85,8 @@ def gen_cases(tier):
                 cases.append({"sel": s, "voff": 2, "kcase": "upper", "ctx": "alone", "mode": m})
             cases.append({"sel": s, "voff": 4, "kcase": "upper", "ctx": "then-alter"})
             cases.append({"sel": s, "voff": 3, "kcase": "upper", "ctx": "between"})
+            cases.append({"sel": s, "voff": 3, "kcase": "upper", "ctx": "between-nosemi"})
+            cases.append({"sel": s, "voff": 6, "kcase": "lower", "ctx": "between-nosemi"})
             cases.append({"sel": s, "voff": 5, "kcase": "mixed", "ctx": "noschema"})
             cases.append({"sel": s, "voff": 2, "kcase": "upper", "ctx": "twoseq"})
         elif len(s) == 3:
@@ -115,7 +117,10 @@ def build(case):
     st = (head + " " + (schema + "." if schema else "") + qname + " " + " ".join(parts)).rstrip() + ";"
     if case.get("lines"):
         st = st.replace(" ", "\n")
-    if case["ctx"] == "between":
+    if case["ctx"] == "between-nosemi":
+        # the same three statements without ';' terminators: each one is ended by the start of the next
+        ddl = "\n".join(x.rstrip(";") for x in (TAB_BEFORE, st, TAB_AFTER))
+    elif case["ctx"] == "between":
         ddl = TAB_BEFORE + "\n" + st + "\n" + TAB_AFTER
     elif case["ctx"] == "then-alter":
         ddl = TAB_BEFORE + "\n" + st + "\n" + ALTER_AFTER
@@ -163,7 +168,7 @@ def evaluate(case):
                 diffs.append(diff("sequence entity (before ALTER statements)", "sequence-differs", exp, short(res[1:2])))
             if len(res) == 2 and res[0] != ref[0]:
                 diffs.append(diff("table altered right after the sequence", "neighbour-changed", short(ref[0]), short(res[0])))
-        elif case["ctx"] == "between":
+        elif case["ctx"] in ("between", "between-nosemi"):
             ref_b, ref_a = run_ddl(TAB_BEFORE)[1], run_ddl(TAB_AFTER)[1]
             if len(res) != 3 or not same_seq([res[1]], [exp]):
                 diffs.append(diff("sequence entity (between tables)", "sequence-differs", exp, short(res[1:2])))
